@@ -252,7 +252,9 @@ def np_nan_to_num(x, copy=True, nan=0.0, posinf=None, neginf=None):
         else:
             # +-inf -> +-(largest finite float): a value determined by the input (same input term, same value)
             cache = CUR.ctx.__dict__.setdefault("_huge", {}) if CUR is not None else {}
-            key = x.t.get_id()
+            from .values import tid
+
+            key = tid(x.t)
             if key not in cache:
                 args = [root_space(a).u for a in x.axes if a is not ONE]
                 if args:
@@ -388,7 +390,9 @@ def make_np_quantile(interp):
         red = x.axes[axis]
         rest = tuple(a for i, a in enumerate(x.axes) if i != axis)
         reg = interp.ctx.__dict__.setdefault("_quant", QuantileRegistry())
-        key = (x.t.get_id(), axis)
+        from .values import tid
+
+        key = (tid(x.t), axis)
         idx = [root_space(a).u for a in rest if a is not ONE]
         fns = interp.ctx.__dict__.setdefault("_quant_fns", {})
         fn = fns.get(key)
@@ -491,10 +495,21 @@ def make_reductions(interp):
     def np_mean(x, axis=None, **kw):
         return sums.reduce_mean(interp, lift(x), axis)
 
+    def _scalar(x):
+        x = x.v if isinstance(x, SeqLen) else x
+        v = lift(x)
+        return v if not [a for a in v.axes if a is not ONE] else None
+
     def np_min(x, axis=None, **kw):
+        s0 = _scalar(x)
+        if s0 is not None and axis is None:
+            return s0  # numpy.min of a scalar is the scalar
         return sums.reduce_minmax(interp, lift(x), axis, "min")
 
     def np_max(x, axis=None, **kw):
+        s0 = _scalar(x)
+        if s0 is not None and axis is None:
+            return s0
         return sums.reduce_minmax(interp, lift(x), axis, "max")
 
     return {"sum": np_sum, "mean": np_mean, "min": np_min, "max": np_max, "nanmean": np_mean}
